@@ -784,11 +784,17 @@ def place_origins(body, p, _seen=None, depth=0, extra=()):
     ds = body.defs.get(l, [])
     if not ds:
         return {("unknown", "no-def:_%d" % l)}
+    rec_seen = set()      # a threaded view repeats one statement in several copies of its block: recurse into it once
     for d in ds:
         if d[0] == "arg":
             out.add(("arg", d[1]) + proj)
         elif d[0] == "stmt":
             rv = d[3]
+            if len(ds) > 2 and ("use" in rv or "ref" in rv or "rawptr" in rv or "cast" in rv or ("agg" in rv and proj)):
+                rk = repr(rv)
+                if rk in rec_seen:
+                    continue
+                rec_seen.add(rk)
             if "use" in rv:
                 out |= origins(body, rv["use"], _seen, depth + 1, proj)
             elif "ref" in rv or "rawptr" in rv:
@@ -821,6 +827,11 @@ def place_origins(body, p, _seen=None, depth=0, extra=()):
             t = d[2]
             fr = op_fn(t["func"])
             passed = False
+            if fr is not None and len(ds) > 2 and pass_through_index(fr) is not None:
+                rk = repr((t["func"], t["args"]))
+                if rk in rec_seen:
+                    continue
+                rec_seen.add(rk)
             if fr is not None:
                 idx = pass_through_index(fr)
                 if idx is not None and idx < len(t["args"]):
